@@ -563,3 +563,434 @@ Section Spec.
     rewrite (IH f2 (fst e) (hier prefix i) s4); [reflexivity | lia | lia].
   Qed.
 End Spec.
+
+(* ------------------------------------------------------------------------ *)
+(* consequences of conformance, node by node                                 *)
+(* ------------------------------------------------------------------------ *)
+Section Consequences.
+  Variable Df : sdef.
+  Let types := d_types Df.
+  Let rels := d_rels Df.
+
+  (* what conformance says about one node of the forest *)
+  Definition node_ok (ptype : text) (path : list nat) (t : gt) : Prop :=
+    exists cs e i,
+      lookup ptype rels = Some cs /\ In e cs /\ (1 <= i)%nat /\
+      g_type t = fst e /\
+      attrs_ok i (path ++ [i]) (strip (mspec Df e)) (g_attrs t) /\
+      (mem (fst e) rels = true -> Conf Df (fst e) (path ++ [i]) (g_ch t)) /\
+      (mem (fst e) rels = false -> g_ch t = []).
+
+  Lemma Forall2_In_r {X Y} (R : X -> Y -> Prop) l l' y :
+    Forall2 R l l' -> In y l' -> exists x, In x l /\ R x y.
+  Proof.
+    induction 1 as [|x0 y0 l l' HR HF IH]; intros Hin; [destruct Hin|].
+    destruct Hin as [->|Hin].
+    - exists x0. split; [left; reflexivity | exact HR].
+    - destruct (IH Hin) as [x [Hx HRx]]. exists x. split; [right; exact Hx | exact HRx].
+  Qed.
+
+  Lemma Conf_node ptype path f t : Conf Df ptype path f -> In t f -> node_ok ptype path t.
+  Proof.
+    intros HC Hin. inversion HC as [pt pa cs groups Hl HF]; subst.
+    apply in_concat in Hin. destruct Hin as [g [Hg Ht]].
+    destruct (Forall2_In_r _ _ _ _ HF Hg) as [e [He [n [Hc HG]]]].
+    destruct (Forall2_In_r _ _ _ _ HG Ht) as [i [Hi [Hty [Ha [Hch Hleaf]]]]].
+    apply in_seq in Hi.
+    exists cs, e, i. refine (conj Hl (conj He (conj _ (conj Hty (conj Ha (conj Hch Hleaf)))))). lia.
+  Qed.
+
+  (* node u occurs somewhere in forest f (the children of a node of type pt) and its
+     parent has type q ("__root__" for top-level nodes) *)
+  Inductive NodeAt : text -> list gt -> text -> gt -> Prop :=
+  | NA_here pt f t : In t f -> NodeAt pt f pt t
+  | NA_below pt f t q u : In t f -> NodeAt (g_type t) (g_ch t) q u -> NodeAt pt f q u.
+
+  (* EVERY node, at any depth: its type is one its parent's type may have according to
+     the relations, its dict is the merged spec of that relation with its own index
+     path, its children conform again / a leaf type has no children *)
+  Theorem every_node ptype path f q u :
+    Conf Df ptype path f -> NodeAt ptype f q u -> exists path', node_ok q path' u.
+  Proof.
+    intros HC HN. revert path HC.
+    induction HN as [pt f t Hin | pt f t q u Hin HN IH]; intros path HC.
+    - exists path. exact (Conf_node _ _ _ _ HC Hin).
+    - destruct (Conf_node _ _ _ _ HC Hin) as [cs [e [i [Hl [He [Hi [Hty [Ha [Hch Hleaf]]]]]]]]].
+      destruct (mem (fst e) rels) eqn:Hm.
+      + rewrite Hty in IH. exact (IH _ (Hch eq_refl)).
+      + rewrite (Hleaf eq_refl) in HN. inversion HN as [? ? ? Hx | ? ? ? ? ? Hx]; destruct Hx.
+  Qed.
+
+  (* ---- per relation: the group of a relation = the children of that type,
+          the macro index = 1 + position among the children of that type ------- *)
+  Definition of_type (ct : text) (t : gt) : bool := text_eqb (g_type t) ct.
+
+  Lemma filter_all {X} (p : X -> bool) l : Forall (fun x => p x = true) l -> filter p l = l.
+  Proof. induction 1 as [|x l Hx Hl IH]; cbn [filter]; [reflexivity|]. rewrite Hx, IH. reflexivity. Qed.
+  Lemma filter_none {X} (p : X -> bool) l : Forall (fun x => p x = false) l -> filter p l = [].
+  Proof. induction 1 as [|x l Hx Hl IH]; cbn [filter]; [reflexivity|]. rewrite Hx, IH. reflexivity. Qed.
+
+  Lemma filter_concat_groups (R : text * spec -> list gt -> Prop) :
+    (forall e g, R e g -> Forall (fun t => g_type t = fst e) g) ->
+    forall cs groups, Forall2 R cs groups -> NoDup (map fst cs) ->
+    forall e, In e cs -> exists g, R e g /\ filter (of_type (fst e)) (concat groups) = g.
+  Proof.
+    intros Hty. induction 1 as [|e0 g0 cs groups HR HF IH]; intros Hnd e Hin; [destruct Hin|].
+    cbn [map fst] in Hnd. inversion Hnd as [|x xs Hnotin Hnd']; subst.
+    cbn [concat]. rewrite filter_app.
+    destruct Hin as [->|Hin].
+    - exists g0. split; [exact HR|].
+      rewrite (filter_all _ g0).
+      + rewrite (filter_none _ (concat groups)); [apply app_nil_r|].
+        apply Forall_forall. intros t Ht. apply in_concat in Ht. destruct Ht as [g [Hg Ht]].
+        destruct (Forall2_In_r _ _ _ _ HF Hg) as [e' [He' HR']].
+        pose proof (Hty _ _ HR') as Hall. rewrite Forall_forall in Hall.
+        unfold of_type. rewrite (Hall _ Ht).
+        destruct (text_eqb (fst e') (fst e)) eqn:E; [|reflexivity].
+        apply text_eqb_eq in E. exfalso. apply Hnotin. rewrite <- E. apply in_map. exact He'.
+      + pose proof (Hty _ _ HR) as Hall. eapply Forall_impl; [|exact Hall].
+        intros t Ht. cbv beta in Ht. unfold of_type. rewrite Ht. apply text_eqb_refl.
+    - destruct (IH Hnd' e Hin) as [g [HRg Hg]]. exists g. split; [exact HRg|].
+      rewrite (filter_none _ g0); [exact Hg|].
+      pose proof (Hty _ _ HR) as Hall. eapply Forall_impl; [|exact Hall].
+      intros t Ht. cbv beta in Ht. unfold of_type. rewrite Ht.
+      destruct (text_eqb (fst e0) (fst e)) eqn:E; [|reflexivity].
+      apply text_eqb_eq in E. exfalso. apply Hnotin. rewrite E. apply in_map. exact Hin.
+  Qed.
+
+  Lemma Forall2_seq_nth {Y} (R : nat -> Y -> Prop) : forall n start g,
+    Forall2 R (seq start n) g ->
+    length g = n /\ forall k t, nth_error g k = Some t -> R (start + k)%nat t.
+  Proof.
+    induction n as [|n IH]; intros start g HF; cbn [seq] in HF.
+    - inversion HF; subst. split; [reflexivity|]. intros [|k] t H; discriminate H.
+    - inversion HF as [|x y l l' HR HF']; subst. destruct (IH _ _ HF') as [Hlen Hnth].
+      split; [cbn [length]; rewrite Hlen; reflexivity|].
+      intros [|k] t H; cbn [nth_error] in H.
+      + injection H as <-. rewrite Nat.add_0_r. exact HR.
+      + replace (start + S k)%nat with (S start + k)%nat by lia. apply Hnth. exact H.
+  Qed.
+
+  (* For a parent whose relation dict has distinct keys (it is a dict): the children
+     of type ct, in order, are exactly the group of relation ct; their number obeys
+     :count; the k-th of them (0-based) carries macro index k+1. *)
+  Theorem relation_group ptype path f cs e :
+    Conf Df ptype path f -> lookup ptype rels = Some cs -> NoDup (map fst cs) -> In e cs ->
+    let g := filter (of_type (fst e)) f in
+    count_ok (lookup K_count (mspec Df e)) (length g) /\
+    forall k t, nth_error g k = Some t ->
+      g_type t = fst e /\
+      attrs_ok (S k) (path ++ [S k]) (strip (mspec Df e)) (g_attrs t) /\
+      (mem (fst e) rels = true -> Conf Df (fst e) (path ++ [S k]) (g_ch t)) /\
+      (mem (fst e) rels = false -> g_ch t = []).
+  Proof.
+    intros HC Hl Hnd Hin. inversion HC as [pt pa cs' groups Hl' HF]; subst.
+    fold rels in Hl'. rewrite Hl in Hl'. injection Hl' as <-.
+    match type of HF with Forall2 ?R0 _ _ => set (R := R0) in * end.
+    destruct (filter_concat_groups R) with (cs := cs) (groups := groups) (e := e) as [g [HRg Hg]]; try assumption.
+    - intros e0 g0 [n [_ HG]]. clear -HG. remember (seq 1 n) as l eqn:El. clear El.
+      induction HG as [|i t l g HR HG IH]; constructor; [exact (proj1 HR) | exact IH].
+    - cbn zeta. rewrite Hg. destruct HRg as [n [Hc HG]].
+      apply Forall2_seq_nth in HG. destruct HG as [Hlen Hnth]. rewrite Hlen.
+      split; [exact Hc|]. intros k t Hk. exact (Hnth k t Hk).
+  Qed.
+End Consequences.
+
+(* ------------------------------------------------------------------------ *)
+(* reading the alignment relation attribute by attribute                     *)
+(* ------------------------------------------------------------------------ *)
+Lemma attrs_ok_keys i path m a : attrs_ok i path m a -> forall k, In k (map fst a) -> In k (map fst m).
+Proof.
+  induction 1 as [|k0 sv v m a Hv H IH|k0 sv m a Hs H IH]; intros k Hin; cbn [map fst In] in *.
+  - exact Hin.
+  - destruct Hin as [->|Hin]; [left; reflexivity | right; exact (IH k Hin)].
+  - right. exact (IH k Hin).
+Qed.
+
+Lemma lookup_notin {X} k (l : list (text * X)) : ~ In k (map fst l) -> lookup k l = None.
+Proof.
+  induction l as [|[k0 x0] l IH]; cbn [lookup map fst In]; intros H; [reflexivity|].
+  destruct (text_eqb k k0) eqn:E.
+  - apply text_eqb_eq in E. subst. exfalso. apply H. left. reflexivity.
+  - apply IH. intros H1. apply H. right. exact H1.
+Qed.
+
+(* with distinct keys in the merged spec (it is a dict): *)
+Theorem attrs_ok_lookup i path m a : attrs_ok i path m a -> NoDup (map fst m) -> forall k,
+  match lookup k m with
+  | None => lookup k a = None                                    (* nothing invented *)
+  | Some (SV v0) => lookup k a = Some (expand i (dotted path) v0)  (* fixed: present, macros expanded *)
+  | Some (SR r) =>
+      match lookup k a with
+      | Some v => exists raw, rnd_may r raw /\ raw <> VNone /\ v = expand i (dotted path) raw
+      | None => rnd_may r VNone                                  (* absent only if r may answer None *)
+      end
+  end.
+Proof.
+  induction 1 as [|k0 sv v m a Hv H IH|k0 sv m a Hs H IH]; intros Hnd k; cbn [lookup map fst] in *.
+  - reflexivity.
+  - inversion Hnd as [|x xs Hnotin Hnd']; subst. destruct (text_eqb k k0) eqn:E.
+    + destruct sv as [v0|r]; cbn [val_ok] in Hv; [rewrite Hv; reflexivity | exact Hv].
+    + exact (IH Hnd' k).
+  - inversion Hnd as [|x xs Hnotin Hnd']; subst. destruct (text_eqb k k0) eqn:E.
+    + apply text_eqb_eq in E. subst k0.
+      assert (Hn : lookup k a = None).
+      { apply lookup_notin. intros Hin. apply Hnotin. exact (attrs_ok_keys _ _ _ _ H k Hin). }
+      destruct sv as [v0|r]; cbn [may_skip] in Hs; [destruct Hs|]. rewrite Hn. exact Hs.
+    + exact (IH Hnd' k).
+Qed.
+
+Lemma keys_remove_key {X} k (l : list (text * X)) :
+  map fst (remove_key k l) = filter (fun k' => negb (text_eqb k k')) (map fst l).
+Proof.
+  unfold remove_key. induction l as [|[k0 x0] l IH]; cbn [filter map fst]; [reflexivity|].
+  destruct (negb (text_eqb k k0)); cbn [map fst]; rewrite IH; reflexivity.
+Qed.
+
+Lemma lookup_remove_key {X} k k' (l : list (text * X)) :
+  lookup k (remove_key k' l) = if text_eqb k' k then None else lookup k l.
+Proof.
+  unfold remove_key. induction l as [|[k0 x0] l IH]; cbn [filter lookup fst].
+  - destruct (text_eqb k' k); reflexivity.
+  - destruct (text_eqb k' k0) eqn:E0; cbn [negb lookup].
+    + rewrite IH. destruct (text_eqb k' k) eqn:E1; [reflexivity|].
+      destruct (text_eqb k k0) eqn:E2; [|reflexivity].
+      apply text_eqb_eq in E0. apply text_eqb_eq in E2. subst. rewrite text_eqb_refl in E1. discriminate.
+    + rewrite IH. destruct (text_eqb k k0) eqn:E2; [|reflexivity].
+      destruct (text_eqb k' k) eqn:E1; [|reflexivity].
+      apply text_eqb_eq in E1. apply text_eqb_eq in E2. subst. rewrite text_eqb_refl in E0. discriminate.
+Qed.
+
+Definition special (k : text) : bool :=
+  text_eqb K_count k || text_eqb K_callback k || text_eqb K_factory k.
+
+(* the dict of a node never has the three popped keys; every other key is looked up
+   in the merge *)
+Lemma lookup_strip k m : lookup k (strip m) = if special k then None else lookup k m.
+Proof.
+  unfold strip, special. rewrite !lookup_remove_key.
+  destruct (text_eqb K_factory k), (text_eqb K_callback k), (text_eqb K_count k); reflexivity.
+Qed.
+
+Lemma nodup_filter {X} (p : X -> bool) l : NoDup l -> NoDup (filter p l).
+Proof.
+  induction 1 as [|x l Hn Hnd IH]; cbn [filter]; [constructor|].
+  destruct (p x); [|exact IH]. constructor; [|exact IH].
+  intros H. apply filter_In in H. exact (Hn (proj1 H)).
+Qed.
+
+Lemma nodup_keys_strip m : NoDup (map fst m) -> NoDup (map fst (strip m)).
+Proof. intros H. unfold strip. rewrite !keys_remove_key. do 3 apply nodup_filter. exact H. Qed.
+
+Lemma nodup_keys_merge nt sp types :
+  NoDup (map fst (getd K_star types)) -> NoDup (map fst (merge_specs nt sp types)).
+Proof. intros H. unfold merge_specs. do 2 apply nodup_keys_update. exact H. Qed.
+
+(* ------------------------------------------------------------------------ *)
+(* reading count_ok                                                          *)
+(* ------------------------------------------------------------------------ *)
+Lemma rnd_may_p1 r raw : (prob_of r == 1)%Q -> rnd_may r raw -> in_range r raw.
+Proof. intros H1 [[_ H]|[H _]]; [exact H | exfalso; exact (H H1)]. Qed.
+
+Lemma rnd_may_p0 r raw : (prob_of r == 0)%Q -> rnd_may r raw -> raw = none_of r.
+Proof. intros H0 [[H _]|[_ H]]; [exfalso; exact (H H0) | exact H]. Qed.
+
+(* RangeRandomizer(lo, hi) with probability 1.0 as :count: lo <= n < hi *)
+Lemma count_ok_range lo hi p none n :
+  (p == 1)%Q -> 0 <= lo -> count_ok (Some (SR (RRangeI lo hi p none))) n -> lo <= Z.of_nat n < hi.
+Proof.
+  intros Hp Hlo [raw [Hm ->]]. apply rnd_may_p1 in Hm; [|exact Hp].
+  destruct Hm as [z [-> Hz]]. cbn [count_of]. lia.
+Qed.
+
+(* ... with any probability: in the range, or the count the none value stands for *)
+Lemma count_ok_range_any lo hi p none n :
+  0 <= lo -> count_ok (Some (SR (RRangeI lo hi p none))) n -> lo <= Z.of_nat n < hi \/ n = count_of none.
+Proof.
+  intros Hlo [raw [[[_ Hm]|[_ Hm]] ->]].
+  - destruct Hm as [z [-> Hz]]. left. cbn [count_of]. lia.
+  - right. rewrite Hm. reflexivity.
+Qed.
+
+(* ------------------------------------------------------------------------ *)
+(* stream-aware: an attribute skipped by probability is absent               *)
+(* ------------------------------------------------------------------------ *)
+Lemma resolve_dict_keys i p : forall d s k,
+  In k (map fst (fst (resolve_dict d i p s))) -> In k (map fst d).
+Proof.
+  induction d as [|[k0 sv] d IH]; intros s k; cbn [resolve_dict]; [intros H; exact H|].
+  destruct sv as [v|r].
+  - specialize (IH s k). destruct (resolve_dict d i p s) as [rest s2]. cbn [fst map In] in *.
+    intros [->|H]; [left; reflexivity | right; exact (IH H)].
+  - destruct (gen r s) as [raw s1]. specialize (IH s1 k).
+    destruct (resolve_dict d i p s1) as [rest s2]. cbn [fst map In] in *.
+    destruct raw; cbn [fst map In]; try (intros [->|H]; [left; reflexivity | right; exact (IH H)]).
+    intros H. right. exact (IH H).
+Qed.
+
+(* the draw u = random() of the skip test is >= probability (< 1.0), the randomizer
+   answers None when skipped: the rest of the dict is resolved from the next draw on
+   as if the key were not there, and the key is absent from the result *)
+Theorem resolve_dict_skipped k r d i p s :
+  ~ (prob_of r == 1)%Q -> (prob_of r <= rand01 (fst (next s)))%Q -> none_of r = VNone ->
+  resolve_dict ((k, SR r) :: d) i p s = resolve_dict d i p (snd (next s)) /\
+  (~ In k (map fst d) -> lookup k (fst (resolve_dict ((k, SR r) :: d) i p s)) = None).
+Proof.
+  intros Hp Hu Hn.
+  assert (E : resolve_dict ((k, SR r) :: d) i p s = resolve_dict d i p (snd (next s))).
+  { cbn [resolve_dict]. rewrite (gen_skipped r s Hp Hu), Hn.
+    destruct (resolve_dict d i p (snd (next s))) as [rest s2]. reflexivity. }
+  split; [exact E|]. intros Hnotin. rewrite E. apply lookup_notin.
+  intros H. apply Hnotin. exact (resolve_dict_keys _ _ _ _ _ H).
+Qed.
+
+(* probability 0.0: skipped whatever the stream is *)
+Corollary resolve_dict_prob_zero k r d i p s :
+  (prob_of r == 0)%Q -> none_of r = VNone ->
+  resolve_dict ((k, SR r) :: d) i p s = resolve_dict d i p (snd (next s)).
+Proof.
+  intros H0 Hn. apply resolve_dict_skipped; [| |exact Hn].
+  - intros H1. rewrite H0 in H1. discriminate H1.
+  - rewrite H0. apply (rand01_range (fst (next s))).
+Qed.
+
+(* ------------------------------------------------------------------------ *)
+(* str(int): decoding law for [dec]                                          *)
+(* ------------------------------------------------------------------------ *)
+Definition undec (t : text) : Z := fold_left (fun a d => 10 * a + (d - 48)) t 0.
+
+Lemma dec_aux_value : forall fuel n acc, (n < fuel)%nat ->
+  fold_left (fun a d => 10 * a + (d - 48)) (dec_aux fuel n acc) 0 =
+  fold_left (fun a d => 10 * a + (d - 48)) acc (Z.of_nat n).
+Proof.
+  induction fuel as [|f IH]; intros n acc Hlt; [lia|].
+  cbn [dec_aux]. pose proof (Nat.div_mod n 10 ltac:(discriminate)) as Hdm.
+  destruct (n <? 10)%nat eqn:E.
+  - apply Nat.ltb_lt in E. cbn [fold_left].
+    rewrite (Nat.mod_small n 10 E). f_equal. lia.
+  - apply Nat.ltb_ge in E. rewrite IH.
+    + cbn [fold_left]. f_equal.
+      assert (Hm : (n mod 10 < 10)%nat) by (apply Nat.mod_upper_bound; discriminate). lia.
+    + assert (n / 10 < n)%nat by (apply Nat.div_lt; lia). lia.
+Qed.
+
+Theorem dec_undec n : undec (dec n) = Z.of_nat n.
+Proof. unfold undec, dec. rewrite dec_aux_value by lia. reflexivity. Qed.
+
+Lemma dec_aux_digits : forall fuel n acc,
+  Forall (fun d => 48 <= d <= 57) acc -> Forall (fun d => 48 <= d <= 57) (dec_aux fuel n acc).
+Proof.
+  induction fuel as [|f IH]; intros n acc Hacc; cbn [dec_aux]; [exact Hacc|].
+  assert (Hm : (n mod 10 < 10)%nat) by (apply Nat.mod_upper_bound; discriminate).
+  assert (Hd : 48 <= Z.of_nat (n mod 10) + 48 <= 57) by lia.
+  destruct (n <? 10)%nat; [constructor; assumption | apply IH; constructor; assumption].
+Qed.
+
+Lemma dec_digits n : Forall (fun d => 48 <= d <= 57) (dec n).
+Proof. apply dec_aux_digits. constructor. Qed.
+
+(* ------------------------------------------------------------------------ *)
+(* decidable versions of the domain hypotheses (used by the correspondence:   *)
+(* every case the implementation ran on is inside the theorems' domain)       *)
+(* ------------------------------------------------------------------------ *)
+Definition rnd_wfb (r : rnd) : bool :=
+  match r with
+  | RRangeI lo hi _ _ => lo <? hi
+  | RRangeF lo hi _ _ => negb (Qle_bool hi lo)
+  | RDate _ days _ _ => 0 <? days
+  | RValue _ _ => true
+  | RSample vals counts _ =>
+      let c := counts_of vals counts in
+      Nat.eqb (length c) (length vals) && forallb (fun x => 0 <=? x) c && (0 <? total c)
+  | RText _ => true
+  end.
+Definition sval_wfb (sv : sval) : bool := match sv with SV _ => true | SR r => rnd_wfb r end.
+Definition spec_wfb (sp : spec) : bool := forallb (fun kv => sval_wfb (snd kv)) sp.
+Definition def_wfb (Df : sdef) : bool :=
+  forallb (fun e => spec_wfb (snd e)) (d_types Df) &&
+  forallb (fun e => forallb (fun c => spec_wfb (snd c)) (snd e)) (d_rels Df).
+
+Lemma rnd_wfb_ok r : rnd_wfb r = true -> rnd_wf r.
+Proof.
+  destruct r as [lo hi p none | lo hi p none | mn days stamp p | v p | vals counts p | p];
+    cbn [rnd_wfb rnd_wf]; intros H; try exact Logic.I.
+  - apply Z.ltb_lt. exact H.
+  - apply Qnot_le_lt. intros Hle. apply Qle_bool_iff in Hle. rewrite Hle in H. discriminate.
+  - apply Z.ltb_lt. exact H.
+  - apply andb_true_iff in H. destruct H as [H H3]. apply andb_true_iff in H. destruct H as [H1 H2].
+    refine (conj _ (conj _ _)).
+    + apply Nat.eqb_eq. exact H1.
+    + apply Forall_forall. intros x Hx. rewrite forallb_forall in H2. apply Z.leb_le. exact (H2 x Hx).
+    + apply Z.ltb_lt. exact H3.
+Qed.
+
+Lemma spec_wfb_ok sp : spec_wfb sp = true -> spec_wf sp.
+Proof.
+  unfold spec_wfb, spec_wf. rewrite forallb_forall, Forall_forall. intros H kv Hin.
+  specialize (H kv Hin). destruct (snd kv) as [v|r]; [exact Logic.I | exact (rnd_wfb_ok r H)].
+Qed.
+
+Lemma def_wfb_ok Df : def_wfb Df = true -> def_wf Df.
+Proof.
+  unfold def_wfb, def_wf. intros H. apply andb_true_iff in H. destruct H as [H1 H2]. split.
+  - apply Forall_forall. intros e He. rewrite forallb_forall in H1. exact (spec_wfb_ok _ (H1 e He)).
+  - apply Forall_forall. intros e He. rewrite forallb_forall in H2. specialize (H2 e He).
+    apply Forall_forall. intros c Hc. rewrite forallb_forall in H2. exact (spec_wfb_ok _ (H2 c Hc)).
+Qed.
+
+Definition rk_of (l : list (text * nat)) (t : text) : nat :=
+  match lookup t l with Some n => n | None => O end.
+
+Definition rank_okb (Df : sdef) (rk : text -> nat) : bool :=
+  forallb (fun pc : text * list (text * spec) =>
+             forallb (fun e => negb (can_be_pos (lookup K_count (mspec Df e)))
+                               || negb (mem (fst e) (d_rels Df))
+                               || Nat.ltb (rk (fst e)) (rk (fst pc))) (snd pc))
+          (d_rels Df).
+
+Lemma rank_okb_ok Df rk : rank_okb Df rk = true -> rank_ok Df rk.
+Proof.
+  unfold rank_okb, rank_ok. intros H p cs e Hl Hin Hpos Hmem.
+  apply lookup_In in Hl. rewrite forallb_forall in H. specialize (H _ Hl). cbn [fst snd] in H.
+  rewrite forallb_forall in H. specialize (H _ Hin). rewrite Hpos, Hmem in H. cbn [negb orb] in H.
+  apply Nat.ltb_lt. exact H.
+Qed.
+
+(* ------------------------------------------------------------------------ *)
+(* D39: a cyclic definition – no fuel suffices, no rank exists               *)
+(* ------------------------------------------------------------------------ *)
+Definition TA : text := [97].
+Definition Dcyc : sdef := SD None [] [(K_root, [(TA, [])]); (TA, [(TA, [])])].
+
+Fixpoint chain (n : nat) : list gt := match n with O => [] | S k => [G TA [] (chain k)] end.
+
+Lemma cyc_chain : forall fuel pt prefix s, pt = K_root \/ pt = TA ->
+  make_tree Dcyc fuel pt prefix s = (chain fuel, s).
+Proof.
+  induction fuel as [|fuel IH]; intros pt prefix s H; [reflexivity|].
+  assert (Hl : lookup pt (d_rels Dcyc) = Some [(TA, [])]) by (destruct H as [->| ->]; reflexivity).
+  cbn [make_tree]. rewrite Hl. cbn [smap]. unfold make_group.
+  change (merge_specs (fst (TA, [])) (snd (TA, [])) (d_types Dcyc)) with (@nil (text * sval)).
+  cbn [lookup resolve_count seq smap]. unfold make_node.
+  change (strip []) with (@nil (text * sval)). cbn [resolve_dict fst].
+  change (mem TA (d_rels Dcyc)) with true. cbv iota.
+  rewrite (IH TA (hier prefix 1) s (or_intror eq_refl)). reflexivity.
+Qed.
+
+Lemma chain_height n : list_max (map g_height (chain n)) = n.
+Proof.
+  induction n as [|n IH]; [reflexivity|].
+  cbn [chain map g_height list_max fold_right]. fold (list_max (map g_height (chain n))).
+  rewrite IH. lia.
+Qed.
+
+Theorem cyclic_unbounded fuel s :
+  list_max (map g_height (fst (make_tree Dcyc fuel K_root [] s))) = fuel.
+Proof. rewrite cyc_chain by (left; reflexivity). apply chain_height. Qed.
+
+Theorem cyclic_no_rank : ~ exists rk, rank_ok Dcyc rk.
+Proof.
+  intros [rk H].
+  specialize (H TA [(TA, [])] (TA, []) eq_refl (or_introl eq_refl) eq_refl eq_refl).
+  cbn [fst] in H. lia.
+Qed.
